@@ -6,6 +6,7 @@ import Props.C15
 #print axioms UseM.make_runs_its_own_request
 #print axioms UseM.close_nodup
 #print axioms UseM.close_sound
+#print axioms UseM.close_closed
 #print axioms UseM.close_complete
 #print axioms UseM.duplicate_names_rejected
 #print axioms UseM.c15_pinned_refuted
